@@ -15,7 +15,10 @@ func init() {
 // hostileID draws a TestReqID: any bytes except SOH, any length 1..300.
 func hostileID(t *Tape, uniq int) string {
 	var s string
-	switch t.Pick(4, 3, 3, 2, 2, 2) {
+	switch t.Pick(4, 3, 3, 2, 2, 2, 1) {
+	case 6:
+		// longer than any read buffer a transport is likely to use
+		s = strings.Repeat("y", 4000+t.Draw(6000))
 	case 0:
 		s = "id"
 	case 1:
@@ -184,7 +187,8 @@ func c14(w *World) {
 				seen[g.id]++
 			}
 		}
-		for id, n := range seen {
+		for _, id := range sortedKeys(seen) {
+			n := seen[id]
 			if !containsID(want, id) {
 				w.Violate("echo-unrequested", classify(id), fmt.Sprintf("Heartbeat carries 112=%q which was not requested in this burst", id))
 			} else if n != 1 {
@@ -231,6 +235,8 @@ func classify(id string) string {
 		id = id[:i]
 	}
 	switch {
+	case len(id) > 3000:
+		return "very-long"
 	case len(id) > 64:
 		return "long"
 	case strings.ContainsAny(id, "="):
